@@ -144,7 +144,8 @@ class Operand(ABC):
         if old_value.is_explicit_extended():
             return ExtendedOperand(self.operand_string, self.instruction, value=self.value)
 
-        if self.value.is_numeric() and (self.value.is_direct() or old_value.is_explicit_direct()):
+        if self.value.is_numeric() and not self.value.is_negative() and \
+                (self.value.is_direct() or old_value.is_explicit_direct()):
             return DirectOperand(self.operand_string, self.instruction, DirectNumericValue(self.value.int))
 
         if self.value.is_address() and old_value.is_explicit_direct():
@@ -208,7 +209,7 @@ class PseudoOperand(Operand):
             if self.operand_string.startswith("$") and len(self.operand_string) > 3:
                 self.value = ExtendedNumericValue(self.value.int)
             elif self.value.hex_len() == 2:
-                self.value = DirectNumericValue(self.value.int)
+                self.value = DirectNumericValue(self.value.signed())
 
     def resolve_symbols(self, symbol_table):
         if self.instruction.mnemonic in ["FCB", "FDB", "RMB", "ORG"]:
